@@ -102,3 +102,91 @@ Proof.
   unfold find_previous_elem. destruct (ds (e_kind e) (e_id e)); try reflexivity.
   destruct (find_previous (e_ver e) h); [reflexivity|]. destruct ign, nft; reflexivity.
 Qed.
+
+(* ================= wave 4: addUpdate and Change ================= *)
+From Verif Require Import Base.GenLoop C13.GenSupport.
+
+Lemma loop_fold_ext {A S R} (f g : S -> A -> lstep S R) :
+  (forall s x, f s x = g s x) -> forall l s, loop_fold f l s = loop_fold g l s.
+Proof.
+  intros H. induction l as [|x l IH]; intro s; [reflexivity|].
+  rewrite !loop_fold_cons, H. destruct (g s x); [apply IH|reflexivity].
+Qed.
+
+(* one per-kind loop of addUpdate *)
+Definition au_body (nft : bool) (ds : datasource) (ign : bool) (ty : atype) (vis : bool)
+           (acts : list action) (e : elem) : lstep (list action) (list action + error) :=
+  let r := find_previous_elem ds ign e in
+  match check_err nft ign r e with
+  | Some err => LRet (inr err)
+  | None =>
+      match fp_old r with
+      | None => LNext (acts ++ [mkAction TCreate (Some (set_vis e true)) None None])
+      | Some o => LNext (acts ++ [mkAction ty None (Some o) (Some (set_vis e vis))])
+      end
+  end.
+
+Lemma au_body_loop nft ds ign ty vis : forall es acts,
+  loop_fold (au_body nft ds ign ty vis) es acts =
+  match add_update_loop nft ds ign ty vis es acts with
+  | inl a => LNext a
+  | inr e => LRet (inr e)
+  end.
+Proof.
+  induction es as [|e r IH]; intro acts; [reflexivity|].
+  rewrite loop_fold_cons. cbn [add_update_loop]. unfold au_body at 1. cbv zeta.
+  destruct (check_err nft ign (find_previous_elem ds ign e) e); [reflexivity|].
+  destruct (find_previous_elem ds ign e); cbn [fp_old]; apply IH.
+Qed.
+
+Lemma gen_add_update_some nft ds acts s ty ign :
+  gen_add_update nft ds acts (Some s) ty ign = add_update nft ds ign ty s acts.
+Proof.
+  unfold gen_add_update, add_update. cbv zeta.
+  destruct ty; cbn [atype_is_delete];
+    match goal with
+    | |- context [add_update_loop nft ds ign ?ty ?vis (s_nodes s) acts] =>
+        rewrite (loop_fold_ext _ (au_body nft ds ign ty vis)) by (intros a e; reflexivity);
+        rewrite au_body_loop;
+        destruct (add_update_loop nft ds ign ty vis (s_nodes s) acts) as [a1|e1]; [|reflexivity];
+        rewrite (loop_fold_ext _ (au_body nft ds ign ty vis)) by (intros a e; reflexivity);
+        rewrite au_body_loop;
+        destruct (add_update_loop nft ds ign ty vis (s_ways s) a1) as [a2|e2]; [|reflexivity];
+        rewrite (loop_fold_ext _ (au_body nft ds ign ty vis)) by (intros a e; reflexivity);
+        rewrite au_body_loop;
+        destruct (add_update_loop nft ds ign ty vis (s_rels s) a2); reflexivity
+    end.
+Qed.
+
+Lemma gen_add_update_ok nft ds acts o ty ign :
+  gen_add_update nft ds acts o ty ign = add_update nft ds ign ty (sec_of o) acts.
+Proof.
+  destruct o as [s|]; [apply gen_add_update_some|].
+  unfold gen_add_update, add_update, sec_of, empty_section. reflexivity.
+Qed.
+
+Lemma fold_append_map {A B} (f : A -> B) (l : list A) : forall acc,
+  fold_left (fun st x => (st ++ [f x])%list) l acc = (acc ++ map f l)%list.
+Proof.
+  induction l as [|x l IH]; intro acc; cbn [fold_left map]; [rewrite app_nil_r; reflexivity|].
+  rewrite IH, <- app_assoc. reflexivity.
+Qed.
+
+Theorem gen_change_ok nft ds ign g :
+  gen_change nft ds ign g = annotate_change nft ds ign (change_of g).
+Proof.
+  unfold gen_change, annotate_change. cbv zeta.
+  unfold change_of. cbn [c_create c_modify c_delete].
+  destruct (gc_create g) as [s|]; cbn [sec_of].
+  - rewrite (fold_left_ext _ (fun st x => (st ++ [create_action x])%list)) by (intros; reflexivity).
+    rewrite fold_append_map.
+    rewrite (fold_left_ext _ (fun st x => (st ++ [create_action x])%list)) by (intros; reflexivity).
+    rewrite fold_append_map.
+    rewrite (fold_left_ext _ (fun st x => (st ++ [create_action x])%list)) by (intros; reflexivity).
+    rewrite fold_append_map. cbn [app]. rewrite <- app_assoc. rewrite gen_add_update_ok.
+    destruct (add_update nft ds ign TModify (sec_of (gc_modify g)) _) as [a1|e1]; [|reflexivity].
+    rewrite gen_add_update_ok. destruct (add_update nft ds ign TDelete (sec_of (gc_delete g)) a1); reflexivity.
+  - cbn [empty_section s_nodes s_ways s_rels map app]. rewrite gen_add_update_ok.
+    destruct (add_update nft ds ign TModify (sec_of (gc_modify g)) []) as [a1|e1]; [|reflexivity].
+    rewrite gen_add_update_ok. destruct (add_update nft ds ign TDelete (sec_of (gc_delete g)) a1); reflexivity.
+Qed.
